@@ -15,6 +15,7 @@ import (
 	"verifmc/sched"
 
 	plush "github.com/gobuffalo/plush/v5"
+	"github.com/gobuffalo/plush/v5/helpers/hctx"
 	"github.com/gobuffalo/plush/v5/vtick"
 )
 
@@ -238,6 +239,43 @@ func c14Scenarios() []c14Scenario {
 				for k, v := range c14Data(i) {
 					child.Set(k, v)
 				}
+				out, err := use.Exec(child)
+				res[i] = c14Res{out, errStr(err)}
+			})
+		}
+		return bodies, res, want, func() {}
+	}})
+	sc = append(sc, c14Scenario{"failing-stored-block-run-by-children", func(n int) ([]func(), []c14Res, []c14Res, func()) {
+		// a block stored on the shared parent by a completed execution fails when the children run it (each with
+		// data that makes it fail at another statement): every child gets its own error, nothing is shared
+		plush.CacheEnabled = false
+		def, _ := plush.NewTemplate(`<% contentFor("f") { %>a<%= 100 / dv %>
+b<%= nm.Nope %>c<% } %>`)
+		use, _ := plush.NewTemplate(`<%= contentOf("f", {"dv": dv, "nm": nm}) %>|<%= x %>`)
+		parent := c14Base()
+		c14SetData(parent, 7)
+		if _, err := def.Exec(parent); err != nil {
+			panic(err)
+		}
+		res := make([]c14Res, n)
+		want := make([]c14Res, n)
+		var bodies []func()
+		for i := 0; i < n; i++ {
+			i := i
+			child := parent.New()
+			solo := parent.New()
+			set := func(c hctx.Context) {
+				for k, v := range c14Data(i) {
+					c.Set(k, v)
+				}
+				c.Set("dv", i%2)
+				c.Set("nm", map[string]int{})
+			}
+			set(solo)
+			out, err := use.Exec(solo)
+			want[i] = c14Res{out, errStr(err)}
+			bodies = append(bodies, func() {
+				set(child)
 				out, err := use.Exec(child)
 				res[i] = c14Res{out, errStr(err)}
 			})
